@@ -104,6 +104,20 @@ def _inproc_chunk(args):
         m2 = oracles.impl_models(progs[i], 2)
         if m1 != m2 and "Timeout" not in (m1[1], m2[1]):
             fails.append({"kind": "models", "text": progs[i], "what": "two solving runs report different answer sets"})
+    # after a translation that ended with a diagnostic (at different depths of the rewriting: head-formula parser, body
+    # placement, primes inside theory atoms, arithmetic): what an aborted run leaves behind must not reach the next one
+    probes = AFTER_REJECTED_PROBES + [progs[i] for i in order[:3]]
+    pfirst = [c14_worker.translate([q]) for q in AFTER_REJECTED_PROBES] + [first[i] for i in order[:3]]
+    for bad in REJECTED:
+        for q, want in zip(probes, pfirst):
+            cnt += 1
+            b = c14_worker.translate([bad])
+            again = c14_worker.translate([q])
+            if again != want:
+                fails.append({"kind": "after-rejected", "text": bad + "\n%%% rejected (" + str(b.get("err", "accepted")) + "); translated afterwards\n" + q,
+                              "what": "the translation of a program differs after another translation in the same process ended with a diagnostic",
+                              "first": str(want)[:300], "again": str(again)[:300]})
+                break
     # re-entrant: start another translation from inside the callback of one
     for i in order[:max(1, n // 3)]:
         cnt += 1
@@ -123,6 +137,25 @@ def _inproc_chunk(args):
         if got != first[i] or (inner_results and inner_results[0] != first[j]):
             fails.append({"kind": "re-entrant", "text": progs[i] + "\n%%% inner\n" + progs[j], "what": "re-entrant translation differs"})
     return cnt, fails
+
+REJECTED = [
+    "#program always. &tel { q & < p }.",
+    "#program always. &tel { a -> b } :- a.",
+    "#program always. &tel { (q | r) & (s <* p) } :- q.",
+    "#program always. a :- &tel { > b }.",
+    "#program always. c. :- c, &tel { b' }.",
+    "#program always. c :- d. p'' :- q, 'p'.",
+    "#program initial. &tel { 1 + > a }.",
+    "#program always. &tel { > a ;> b } :- not &tel { < b }. &tel { a >? 'b }.",
+    "#program always. &tel { a ; b }.",
+]
+
+AFTER_REJECTED_PROBES = [
+    "#program initial. &tel { > r }.",
+    "#program initial. &tel { > a | ~ >? b }. #program always. { b }.",
+    "#program always. { a }. b' :- a. :- b, a''.",
+    "#program always. { a }. w :- not not &tel { < a <? a }. &tel { a ;> >: a } :- a.",
+]
 
 STATE_PROBES = [
     "#program always. &tel { a | ~ a }.",
